@@ -188,6 +188,9 @@ pub enum Op {
     Ingest { items: Vec<(u16, Vec<Option<u8>>)> },
     /// oversize key or value: must be rejected and leave the model unchanged
     Oversize { key: bool },
+    /// a batch of up to `n` distinct keys with 30 000-byte values (close to the maximum batch), so
+    /// that log frames cross the 1 MiB block boundary
+    BigBatch { n: u8 },
     Scan { lo: BSel, hi: BSel, prog: Vec<POp> },
     CursorOpen { id: u8, lo: BSel, hi: BSel },
     CursorStep { id: u8, prog: Vec<POp> },
@@ -216,13 +219,14 @@ pub struct OpWeights {
     pub reopen: u32,
     pub ingest: u32,
     pub oversize: u32,
+    pub big_batch: u32,
     pub scan: u32,
     pub cursor: u32,
 }
 
 impl OpWeights {
     pub fn base() -> Self {
-        Self { put: 30, del: 10, batch: 8, flush: 14, compact: 28, verify: 3, reopen: 3, ingest: 0, oversize: 1, scan: 0, cursor: 0 }
+        Self { put: 30, del: 10, batch: 8, flush: 14, compact: 28, verify: 3, reopen: 3, ingest: 0, oversize: 1, big_batch: 0, scan: 0, cursor: 0 }
     }
 }
 
@@ -256,6 +260,7 @@ pub fn op_strategy(w: OpWeights, surface: Surface) -> BoxedStrategy<Op> {
         v.push((w.batch, prop::collection::vec((any::<u16>(), prop::option::weighted(0.7, sz2)), 2..12).prop_map(|items| Op::Batch { items }).boxed()));
         v.push((w.flush, Just(Op::Flush).boxed()));
         v.push((w.oversize, any::<bool>().prop_map(|key| Op::Oversize { key }).boxed()));
+        v.push((w.big_batch, (8u8..31).prop_map(|n| Op::BigBatch { n }).boxed()));
     } else {
         let ing = prop::collection::vec((any::<u16>(), prop::collection::vec(prop::option::weighted(0.7, sz3), 1..4)), 1..10).prop_map(|items| Op::Ingest { items });
         v.push((w.put + w.del + w.batch + w.flush + w.ingest, ing.boxed()));
@@ -878,7 +883,7 @@ impl<'a> Harness<'a> {
 
     pub fn apply(&mut self, op: &Op) -> Result<(), Fail> {
         match op {
-            Op::Put { .. } | Op::Del { .. } | Op::Batch { .. } => {
+            Op::Put { .. } | Op::Del { .. } | Op::Batch { .. } | Op::BigBatch { .. } => {
                 let writes = write_set(&self.universe, &mut self.tag, op).unwrap();
                 let kvs = self.kvs.as_ref().unwrap();
                 match op {
@@ -1249,6 +1254,10 @@ pub fn write_set(universe: &[Vec<u8>], tag: &mut u32, op: &Op) -> Option<Vec<(Ve
             }
             Some(out)
         }
+        Op::BigBatch { n } => {
+            let count = (*n as usize).min(universe.len());
+            Some(universe.iter().take(count).map(|k| (k.clone(), Some(fresh(7)))).collect())
+        }
         _ => None,
     }
 }
@@ -1354,6 +1363,7 @@ pub fn op_name(op: &Op) -> &'static str {
         Op::Reopen => "reopen",
         Op::Ingest { .. } => "ingest",
         Op::Oversize { .. } => "oversize",
+        Op::BigBatch { .. } => "big-batch",
         Op::Scan { .. } => "scan",
         Op::CursorOpen { .. } => "cursor-open",
         Op::CursorStep { .. } => "cursor-step",
